@@ -91,7 +91,7 @@ fn k_aq_3_add_untracked_read() {
     std::mem::forget(q);
 }
 
-//@off(cbmc-does-not-finish) id=K-AQ-4 kind=B bound=two-IndexSet-inserts-same-key props=C10,C06 timeout=900 fn=ActiveQuery::add_output
+//@ob id=K-AQ-4 kind=B bound=two-IndexSet-inserts-same-key props=C10,C06 timeout=900 fn=ActiveQuery::add_output
 //@ pre: empty frame; the same (concrete) key is added as output twice
 //@ post: first call reports newly-inserted (true), second reports duplicate (false); exactly one output edge is recorded
 #[cfg_attr(kani, kani::proof)]
@@ -168,7 +168,7 @@ fn k_aq_6_finish() {
     std::mem::forget(c);
 }
 
-//@off(cbmc-does-not-finish) id=K-STACK-1 kind=B bound=stack-depth-1 props=C14,C01 timeout=600 fn=QueryStack::push_new_query,QueryStack::pop,ActiveQuery::reset_for,ActiveQuery::clear
+//@off(pending-measurement) id=K-STACK-1 kind=B bound=stack-depth-1 props=C14,C01 timeout=600 fn=QueryStack::push_new_query,QueryStack::pop,ActiveQuery::reset_for,ActiveQuery::clear
 //@ pre: empty stack; push a frame, record an untracked read (any revision) and a LOW read, pop it, push again with another key
 //@ post: length returns to 0 after pop; the re-used frame starts clean: (NEVER_CHANGE, start, tracked, no edges) for the new key
 #[cfg_attr(kani, kani::proof)]
